@@ -135,6 +135,10 @@ private:
 
   std::mutex callback_lock;
   std::vector<void*> callback_keys;
+  // Number of times this object has been destroyed. A sandbox_callback
+  // remembers the value at registration: registrations end with the incarnation
+  // of the sandbox they were made in
+  std::atomic<size_t> sandbox_incarnation{ 0 };
 
   void* transition_state = nullptr;
 
@@ -305,11 +309,13 @@ private:
    * calling this function henceforth.
    */
   template<typename T_Ret, typename... T_Args>
-  inline void unregister_callback(void* key)
+  inline void unregister_callback(void* key, size_t incarnation)
   {
     // Silently swallowing the failure is better here as RAII types may try to
-    // cleanup callbacks after sandbox destruction
-    if (sandbox_created.load() != Sandbox_Status::CREATED) {
+    // cleanup callbacks after sandbox destruction (or after the sandbox object
+    // has been created again)
+    if (sandbox_created.load() != Sandbox_Status::CREATED ||
+        sandbox_incarnation.load() != incarnation) {
       return;
     }
 
@@ -455,6 +461,14 @@ public:
       RLBOX_ACQUIRE_UNIQUE_GUARD(lock, func_ptr_cache_lock);
       func_ptr_map.clear();
       internal_func_ptr_map.clear();
+    }
+
+    {
+      // callback registrations do not carry over to the next incarnation
+      // either; their owners may outlive this call
+      std::lock_guard<std::mutex> lock(callback_lock);
+      callback_keys.clear();
+      sandbox_incarnation++;
     }
 
     sandbox_created.store(Sandbox_Status::NOT_CREATED);
@@ -967,7 +981,8 @@ public:
         tainted_func_ptr,
         callback_interceptor,
         callback_trampoline,
-        unique_key);
+        unique_key,
+        sandbox_incarnation.load());
       return ret;
     }
   }
